@@ -497,8 +497,9 @@ class CodeGenerator(NodeVisitor):
         """
         # if any of the given keyword arguments is a python keyword
         # we have to make sure that no invalid call is created.
+        # (``__debug__`` is no keyword but can't be assigned to either.)
         kwarg_workaround = any(
-            is_python_keyword(t.cast(str, k))
+            is_python_keyword(t.cast(str, k)) or k == "__debug__"
             for k in chain((x.key for x in node.kwargs), extra_kwargs or ())
         )
 
